@@ -20,6 +20,15 @@ def compare_final(model, impl):
         return None
     if len(src["stack"]) != fin[0]:
         return "call-stack length after the run differs: model %d implementation %d" % (fin[0], len(src["stack"]))
+    # the chain of frames the error display walks: (native?, call type, current line), outermost first
+    chain = model[2]
+    want = []
+    for i in range(0, len(chain), 2):
+        kind, line = chain[i], chain[i + 1]
+        want.append([-1 if kind == 4 else 0, 2 if kind == 4 else kind, None if kind == 4 else line])
+    got = [[f[0], f[1], None if f[0] == -1 else f[2]] for f in src["stack"]]
+    if want != got:
+        return "call chain differs (module, call type, line of each active frame): model %s implementation %s" % (want, got)
     for sc in src.get("scopes") or []:
         if sc[0] == 0:
             if sc[1] != fin[1] or sc[2] != fin[2]:
@@ -27,12 +36,12 @@ def compare_final(model, impl):
     return None
 
 
-def run_diff(chk, progs, label, mode="vm", repeat=1, inputs=None, rng_layout=None, tag="sem"):
+def run_diff(chk, progs, label, mode="vm", repeat=1, inputs=None, rng_layout=None, tag="sem", decorate=None, extra_check=None):
     """progs: list of program ASTs. Returns list of (index, description, src, model, impl)."""
     names = G.Names()
     cases, terms, texts = [], [], []
     for k, p in enumerate(progs):
-        txt, r = G.render(p, rng_layout)
+        txt, r = G.render(p, rng_layout, decorate)
         em = G.CoqEmitter(names, r.line_of)
         ins = (inputs[k] if inputs else None) or {}
         c = {"src": txt, "mode": mode, "inputs": ins}
@@ -57,7 +66,7 @@ def run_diff(chk, progs, label, mode="vm", repeat=1, inputs=None, rng_layout=Non
         descr = None
         for ri, ro in enumerate(runs):
             impl = G.enc_go_run(ro, ids)
-            descr = G.compare_run(m, impl) or compare_final(m, impl)
+            descr = G.compare_run(m, impl) or compare_final(m, impl) or (extra_check(m, impl, texts[k]) if extra_check else None)
             if descr:
                 if ri > 0:
                     descr = "run %d of %d differs from the first (nondeterminism): %s" % (ri + 1, len(runs), descr)
